@@ -109,7 +109,8 @@ def showSys (s : Sys) : String :=
   let ap := ",".intercalate (s.applied.map (fun e => s!"{e.1}/{e.2}"))
   let di := ",".intercalate (s.discarded.map (fun e => s!"{e.1}/{e.2}"))
   let rs := ",".intercalate (s.reasons.map (fun e => s!"{e.1}/{showReason e.2}"))
-  s!"C:{c}|PA:{s.coord.pendingAborts.length}|{ps}|M:{s.msgs.length}|H:{s.nextHandle}|D:{d}|AP:{ap}|DI:{di}|R:{rs}"
+  let ao := ",".intercalate (s.appliedOps.map (fun e => s!"{e.1}/{e.2.1}/{showOps e.2.2}"))
+  s!"C:{c}|PA:{s.coord.pendingAborts.length}|{ps}|M:{s.msgs.length}|H:{s.nextHandle}|D:{d}|AP:{ap}|DI:{di}|R:{rs}|AO:{ao}"
 
 def showVoteErr : VoteErr → String
   | .notFound => "not_found"
